@@ -425,11 +425,27 @@ def _js_bis(im):
 
 # =====================================================================================
 # part B : MCMC_MH
-FAMS = ["U", "N", "H", "T", "T1L", "T1U", "T0", "DU", "DG", "DB", "DL", "DE"]
+FAMS = ["U", "N", "H", "T", "T1L", "T1U", "T0", "DU", "DG", "DB", "DL", "DE", "TT", "TT1", "SU", "SG", "SE"]
 
 
 def gen_prior(rng, fam=None):
     fam = fam or rng.choice(FAMS)
+    if fam == "TT":         # two-sided window far in either tail (5..12 sigma from mu)
+        mu = rng.uniform(-3, 3); sig = 10 ** rng.uniform(-1, 1)
+        k = rng.uniform(5, 12) * rng.choice([-1, 1]); dl = rng.uniform(0.1, 1.0)
+        lo = mu + k * sig if k > 0 else mu + (k - dl) * sig
+        return {"fam": "T", "mu": mu, "sig": sig, "low": lo, "up": lo + dl * sig, "tail": k}
+    if fam == "TT1":        # one-sided truncation far in a tail
+        mu = rng.uniform(-3, 3); sig = 10 ** rng.uniform(-1, 1); k = rng.uniform(5, 12)
+        if rng.random() < 0.5:
+            return {"fam": "T1L", "mu": mu, "sig": sig, "low": mu + k * sig, "tail": k}
+        return {"fam": "T1U", "mu": mu, "sig": sig, "up": mu - k * sig, "tail": -k}
+    if fam == "SU":         # library Distribution wrapped around a frozen scipy object (what the fit helpers return)
+        return {"fam": "SU", "loc": rng.uniform(-5, 5), "scale": 10 ** rng.uniform(-1, 1)}
+    if fam == "SG":
+        return {"fam": "SG", "mu": rng.uniform(-3, 3), "sig": 10 ** rng.uniform(-1, 1)}
+    if fam == "SE":
+        return {"fam": "SE", "loc": rng.uniform(-3, 3), "scale": 10 ** rng.uniform(-1, 1)}
     if fam == "T1L":        # one-sided: only `low` given, `up` left at its default +inf
         mu = rng.uniform(-3, 3); sig = 10 ** rng.uniform(-1, 1)
         return {"fam": "T1L", "mu": mu, "sig": sig, "low": rng.choice([0.0, mu - sig * rng.uniform(-0.5, 2)])}
@@ -479,6 +495,14 @@ def build_prior(d):
         return pdfs.TruncatedNormal(d["mu"], d["sig"], up=d["up"])
     if f == "T0":
         return pdfs.TruncatedNormal(d["mu"], d["sig"])
+    if f in ("SU", "SG", "SE"):
+        import scipy.stats as sps
+        from pyuncertainnumber.pba.distributions import Distribution
+        if f == "SU":
+            return Distribution.dist_from_sps(sps.uniform(loc=d["loc"], scale=d["scale"]), shape="uniform")
+        if f == "SG":
+            return Distribution.dist_from_sps(sps.norm(loc=d["mu"], scale=d["sig"]), shape="gaussian")
+        return Distribution.dist_from_sps(sps.expon(loc=d["loc"], scale=d["scale"]), shape="expon")
     wrap = (lambda t: list(t)) if d.get("aslist") else (lambda t: t)
     if f == "DU":
         return pba.Distribution("uniform", wrap((d["a"], d["b"])))
@@ -495,8 +519,12 @@ def support(d):
     f = d["fam"]
     if f in ("U", "DU"):
         return d["a"], d["b"]
-    if f in ("N", "DG", "T0"):
+    if f in ("N", "DG", "T0", "SG"):
         return -math.inf, math.inf
+    if f == "SU":
+        return d["loc"], d["loc"] + d["scale"]
+    if f == "SE":
+        return d["loc"], math.inf
     if f in ("H", "DL"):
         return 0.0, math.inf
     if f == "T":
@@ -516,7 +544,9 @@ def width(d):
         return hi - lo
     if d["fam"] == "DL":
         return 2 * math.exp(d["mu"])
-    return d.get("sig", 1.0) * 2
+    if d.get("tail"):
+        return d["sig"] * 2 / abs(d["tail"])         # scale of a normal tail beyond k sigma
+    return d.get("sig", d.get("scale", 1.0)) * 2
 
 
 def logprior_ref(d, x):
@@ -528,8 +558,12 @@ def logprior_ref(d, x):
         return -math.inf
     if f in ("U", "DU"):
         return -math.log(d["b"] - d["a"])
-    if f in ("N", "DG", "T0"):
+    if f in ("N", "DG", "T0", "SG"):
         return float(st.norm.logpdf(x, d["mu"], d["sig"]))
+    if f == "SU":
+        return -math.log(d["scale"])
+    if f == "SE":
+        return float(st.expon.logpdf(x, loc=d["loc"], scale=d["scale"]))
     if f in ("T1L", "T1U"):
         return float(st.truncnorm.logpdf(x, (lo - d["mu"]) / d["sig"], (hi - d["mu"]) / d["sig"], loc=d["mu"], scale=d["sig"]))
     if f == "DL":
@@ -557,6 +591,8 @@ def sample_support(rng, d):
         return math.exp(rng.gauss(d["mu"], d["sig"]))
     if d["fam"] == "DE":
         return d["loc"] + rng.expovariate(1.0)
+    if d["fam"] == "SE":
+        return d["loc"] + d["scale"] * rng.expovariate(1.0)
     for _ in range(200):
         x = rng.gauss(d["mu"], d["sig"])
         if lo <= x <= hi:
@@ -677,6 +713,22 @@ def same_state(a, b):
     return a[0] == b[0] and np.array_equal(a[1], b[1]) and a[2:] == b[2:]
 
 
+# (family, how the prior objects are copied before MCMC_MH sees them — what Pool.starmap does to its arguments)
+WITNESS = [("T1L", None), ("T1U", None), ("H", None), ("DL", None), ("DE", None), ("T1L", None), ("T1U", None), ("T", None),
+           ("SU", "pickle"), ("SU", "deepcopy"), ("SE", "pickle"), ("SG", "pickle"), ("DU", "pickle"), ("DL", "pickle"),
+           ("TT", "pickle"), ("TT1", None), ("TT", None)]
+NWIT = len(WITNESS)
+
+
+def ship_prior(obj, how):
+    import pickle, copy
+    if how == "pickle":
+        return pickle.loads(pickle.dumps(obj))
+    if how == "deepcopy":
+        return copy.deepcopy(obj)
+    return obj
+
+
 def gen_mh_cases(ctx):
     rng = ctx.rng
     cases = []
@@ -684,13 +736,15 @@ def gen_mh_cases(ctx):
         dim = rng.choice([1, 2, 2, 3])
         pri = [gen_prior(rng) for _ in range(dim)]
         lld = gen_ll_desc(rng, pri)
-        if k < 8:           # witnesses always present: every one-sided family, proposals straddling the bound
-            pri[0] = gen_prior(rng, ["T1L", "T1U", "H", "DL", "DE", "T1L", "T1U", "T"][k])
+        ship = rng.choice([None, None, None, "pickle", "deepcopy"])
+        if k < NWIT:        # witnesses always present: every one-sided family, proposals straddling the bound
+            pri[0] = gen_prior(rng, WITNESS[k][0])
+            ship = WITNESS[k][1]
             if k == 5:
                 pri[0] = {"fam": "T1L", "mu": 0.3, "sig": 1.0, "low": 0.0}
             lld = gen_ll_desc(rng, pri)
         cur = [sample_support(rng, p) for p in pri]
-        if k < 8 or rng.random() < 0.3:      # start next to a finite bound so that proposals leave the support
+        if k < NWIT or rng.random() < 0.3:      # start next to a finite bound so that proposals leave the support
             for i, p in enumerate(pri):
                 lo, hi = support(p)
                 if math.isfinite(lo) and (not math.isfinite(hi) or rng.random() < 0.5):
@@ -698,13 +752,13 @@ def gen_mh_cases(ctx):
                 elif math.isfinite(hi):
                     cur[i] = hi - 0.02 * width(p) * rng.random()
         A = [[rng.gauss(0, 1) for _ in range(dim)] for _ in range(dim)]
-        sc = [width(p) * (rng.choice([0.02, 0.2, 0.2, 1.0, 4.0]) if k >= 8 else 1.0) for p in pri]
+        sc = [width(p) * (rng.choice([0.02, 0.2, 0.2, 1.0, 4.0]) if k >= NWIT else 1.0) for p in pri]
         Em = (np.diag(sc) @ (np.array(A) @ np.array(A).T / dim + 0.05 * np.eye(dim)) @ np.diag(sc)).tolist()
         beta = rng.choice([1.0, 1.0, rng.random(), rng.random(), 10 ** rng.uniform(-8, -1), 0.0])
         cases.append({"pri": pri, "ll": lld, "cur": cur, "Em": Em, "beta": beta,
-                      "n": rng.choice([0, 1, 2, 3, 5, 5, 8]) if k >= 8 else 6, "acc0": rng.choice([0, 0, 3, 17]),
+                      "n": rng.choice([0, 1, 2, 3, 5, 5, 8]) if k >= NWIT else 6, "ship": ship, "acc0": rng.choice([0, 0, 3, 17]),
                       "seed": rng.randrange(2 ** 31), "pn": rng.randrange(100),
-                      "stale": rng.random() < 0.05 and k >= 8})
+                      "stale": rng.random() < 0.05 and k >= NWIT})
     return cases
 
 
@@ -712,14 +766,16 @@ def run_mh_case(c):
     """runs the real MCMC_MH; returns dict with everything observed"""
     T = _T()
     log = []
-    pars = [RecPrior(build_prior(d), i, log) for i, d in enumerate(c["pri"])]
+    originals = [build_prior(d) for d in c["pri"]]
+    # the kernel gets the priors as a pool worker would: after a pickle / deepcopy boundary
+    pars = [RecPrior(ship_prior(p, c.get("ship")), i, log) for i, p in enumerate(originals)]
     raw = make_ll(c["ll"])
     LL = rec_ll(raw, log)
     cur = np.array(c["cur"], dtype=float)
     lik0 = float(raw(c["pn"], cur))
     lp0 = 0
     for i, d in enumerate(c["pri"]):
-        lp0 = lp0 + float(pars[i].inner.log_pdf_eval(cur[i]))
+        lp0 = lp0 + float(originals[i].log_pdf_eval(cur[i]))
     with np.errstate(all="ignore"):
         post0 = float(lp0 + lik0 * c["beta"])
     if c.get("stale"):
@@ -822,7 +878,7 @@ def ref_mh(c, o, deltas, us):
 def oracle_mh(c, o, deltas, us, after_mvn, where="MCMC_MH"):
     out = []
     res = o["res"]
-    base = {"call": where, "ll": c["ll"]["kind"], "fams": "".join(sorted(set(d["fam"] for d in c["pri"])))}
+    base = {"call": where, "ll": c["ll"]["kind"], "fams": "".join(sorted(set(d["fam"] for d in c["pri"]))), "ship": c.get("ship")}
     if res[0] == "err":
         out.append((dict(base, symptom="raises:" + res[1]), f"MCMC_MH raises {res[1]}"))
         return out
@@ -873,7 +929,7 @@ def part_mh(ctx):
     reps = core.model_batch("C19", reqs)
     for c, o, (steps, deltas, us, after_mvn), rep in zip(cases, obs, aux, reps):
         ctx.count(("mh", c["seed"], c["beta"], tuple(c["cur"])), c["n"] > 0, "mh")
-        cj = {"part": "mh", **{k: c[k] for k in ("pri", "ll", "cur", "Em", "beta", "n", "acc0", "seed", "pn", "stale")}}
+        cj = {"part": "mh", **{k: c[k] for k in ("pri", "ll", "cur", "Em", "beta", "n", "acc0", "seed", "pn", "stale")}, "ship": c.get("ship")}
         if steps is None:
             why = "recorded prior/likelihood calls do not have the shape (dim prior calls, optional likelihood) per step"
         else:
@@ -1064,6 +1120,8 @@ def oracle_run(c, o):
         bprev = betas[k]
     # MCMC_MH calls made by the stage loop: entry invariant (re-tempering) and results carried over
     calls = o["calls"]
+    if calls is None:            # run through a real process pool: the kernel calls are not observable
+        return out
     nst = len(trace) - 1
     if len(calls) != nst * N:
         out.append((dict(base, symptom="mh-call-count"), f"{len(calls)} MCMC_MH calls for {nst} stages of {N} particles"))
@@ -1264,13 +1322,180 @@ def part_run(ctx):
 
 
 # =====================================================================================
+# part D : the prior objects themselves — initial population, copies that cross a process boundary
+def gen_prior_cases(ctx):
+    rng = ctx.rng
+    ds = [gen_prior(rng, f) for f in FAMS]
+    ds += [{"fam": "T", "mu": 3.0, "sig": 0.1, "low": 4.0, "up": 4.5, "tail": 10.0},
+           {"fam": "T", "mu": 0.0, "sig": 1.0, "low": -9.0, "up": -8.0, "tail": -8.0},
+           {"fam": "T1L", "mu": 0.0, "sig": 1.0, "low": 8.0, "tail": 8.0},
+           {"fam": "T1U", "mu": 1.0, "sig": 2.0, "up": -21.0, "tail": -11.0},
+           {"fam": "SU", "loc": -1.0, "scale": 1.0}]
+    for _ in range(ctx.scale(30, 600)):
+        ds.append(gen_prior(rng, rng.choice(FAMS + ["TT", "TT1", "TT", "SU"])))
+    return [{"d": d, "seed": rng.randrange(2 ** 31), "n": rng.choice([51, 60, 100])} for d in ds]
+
+
+def _same(a, b):
+    a, b = float(a), float(b)
+    return a == b or (math.isnan(a) and math.isnan(b))
+
+
+def oracle_prior(c):
+    out = []
+    d = c["d"]
+    base = {"call": "prior", "fam": d["fam"], "tail": bool(d.get("tail"))}
+    lo, hi = support(d)
+    try:
+        P = build_prior(d)
+        np.random.seed(c["seed"])
+        with np.errstate(all="ignore"):
+            x = np.asarray(P.generate_rns(c["n"]), dtype=float)
+    except BaseException as ex:  # noqa
+        return [(dict(base, symptom="raises:" + err_kind(ex)), f"building / sampling the prior raises {ex!r}")]
+    # the initial population of a run: N draws, all inside the support with finite log-prior
+    if x.shape != (c["n"],):
+        out.append((dict(base, symptom="sample-shape"), f"generate_rns({c['n']}) has shape {x.shape}"))
+        return out
+    bad = [float(v) for v in x if not (lo <= v <= hi)]
+    if bad:
+        out.append((dict(base, symptom="sample-outside-support"),
+                    f"{len(bad)}/{c['n']} draws of the initial population are outside the prior support [{lo!r}, {hi!r}], e.g. {bad[0]!r}"))
+    else:
+        with np.errstate(all="ignore"):
+            lp = [float(P.log_pdf_eval(float(v))) for v in x]
+        nb = [i for i, v in enumerate(lp) if not math.isfinite(v)]
+        # (a draw exactly on a bound where the density is 0/inf is possible only with probability 0)
+        if nb:
+            out.append((dict(base, symptom="sample-logprior-not-finite"),
+                        f"log-prior of draw {float(x[nb[0]])!r} (inside the support) is {lp[nb[0]]!r}"))
+    # copies: what Pool.starmap hands to the workers (pickle) / what a user keeps (deepcopy)
+    w = width(d)
+    grid = [v for v in (lo - 0.37 * w, lo + 1e-3 * w, hi - 1e-3 * w, hi + 0.37 * w, lo - 1.9 * w, hi + 1.9 * w) if math.isfinite(v)]
+    grid += [float(v) for v in x[:6] if math.isfinite(v)]
+    for how in ("pickle", "deepcopy"):
+        try:
+            C = ship_prior(P, how)
+            with np.errstate(all="ignore"):
+                diff = [(g, float(P.log_pdf_eval(g)), float(C.log_pdf_eval(g))) for g in grid]
+                np.random.seed(c["seed"] + 1)
+                y = np.asarray(C.generate_rns(20), dtype=float)
+        except BaseException as ex:  # noqa
+            out.append((dict(base, symptom="copy-raises", how=how), f"{how} copy of the prior raises {ex!r}"))
+            continue
+        dd = [t for t in diff if not _same(t[1], t[2])]
+        if dd:
+            g, a, b = dd[0]
+            out.append((dict(base, symptom="copy-differs", how=how),
+                        f"the prior a pool worker receives ({how} copy) has log-density {b!r} at {g!r}, the prior given to TMCMC has {a!r}: "
+                        f"worker-side MH runs against a different prior (support [{lo!r}, {hi!r}])"))
+        elif any(not (lo <= v <= hi) for v in y):
+            out.append((dict(base, symptom="copy-sample-outside-support", how=how), f"{how} copy of the prior samples outside the support"))
+    return out
+
+
+def part_priors(ctx):
+    for c in gen_prior_cases(ctx):
+        d = c["d"]
+        ctx.count(("prior", json.dumps(d, sort_keys=True), c["seed"]), True, "prior")
+        ctx.bump("prior-check:" + d["fam"] + ("-tail" if d.get("tail") else ""))
+        for feat, text in oracle_prior(c):
+            ctx.fail(feat, {"part": "prior", **c}, text)
+
+
+class PickLL:
+    """picklable log-likelihood (module-level class) for runs through a real process pool"""
+    def __init__(self, d):
+        self.d = d
+        self._f = None
+
+    def __getstate__(self):
+        return {"d": self.d, "_f": None}
+
+    def __call__(self, pn, s):
+        if self._f is None:
+            self._f = make_ll(self.d)
+        return self._f(pn, s)
+
+
+class _Timeout(Exception):
+    pass
+
+
+def run_real_pool_case(c, timeout=150):
+    """TMCMC.run() through the REAL multiprocessing.Pool (2 worker processes): priors and likelihood are pickled"""
+    import multiprocessing as mp, signal, io, contextlib
+    T = _T()
+    patch_pool()
+    T.console.quiet = True
+    pars = [build_prior(d) for d in c["pri"]]
+    LL = PickLL(c["ll"])
+    saved_pool, saved_cc = mp.Pool, mp.cpu_count
+    mp.Pool = mp._verif_real_Pool
+    mp.cpu_count = lambda: 4                      # the code uses cpu_count() - 2 processes
+    fd, status = tempfile.mkstemp(prefix="verif_c19_", suffix=".txt")
+    os.close(fd)
+
+    def on_alarm(sig, frm):
+        raise _Timeout()
+    old = signal.signal(signal.SIGALRM, on_alarm)
+    signal.alarm(timeout)
+    np.random.seed(c["seed"])
+    try:
+        with contextlib.redirect_stdout(io.StringIO()), np.errstate(all="ignore"):
+            t = T.TMCMC(N=c["N"], parameters=pars, names=[f"p{i}" for i in range(len(pars))], log_likelihood=LL,
+                        mutation_steps=c["steps"], status_file_name=status)
+            trace = t.run()
+        res = ("ok", trace)
+    except _Timeout:
+        res = ("err", "Timeout", f"TMCMC.run through a process pool did not finish within {timeout} s")
+    except BaseException as ex:  # noqa
+        res = ("err", err_kind(ex), repr(ex)[:200])
+    finally:
+        signal.alarm(0)
+        signal.signal(signal.SIGALRM, old)
+        mp.Pool, mp.cpu_count = saved_pool, saved_cc
+        for ch in mp.active_children():
+            ch.terminate()
+        try:
+            os.unlink(status)
+        except OSError:
+            pass
+    return {"res": res, "calls": None, "raw": LL, "log": []}
+
+
+def gen_pool_cases(ctx):
+    rng = ctx.rng
+    cases = [{"pri": [{"fam": "SU", "loc": -1.0, "scale": 1.0}, {"fam": "T1L", "mu": 0.3, "sig": 1.0, "low": 0.0}],
+              "ll": {"kind": "quad", "c": [0.0, 0.0], "w": [0.25, 0.4], "s": 1.0}, "N": 51, "steps": 2, "seed": rng.randrange(2 ** 31)}]
+    for _ in range(ctx.scale(0, 3)):
+        pri = [gen_prior(rng, rng.choice(["SU", "SE", "DU", "T", "TT", "DL", "U", "H"])) for _ in range(rng.choice([1, 2]))]
+        lld = gen_ll_desc(rng, pri)
+        lld["kind"], lld["s"] = "quad", 1.0
+        lld["c"] = [support(p)[0] if math.isfinite(support(p)[0]) else lld["c"][i] for i, p in enumerate(pri)]   # pushes against a bound
+        lld["w"] = [width(p) * 0.25 for p in pri]
+        cases.append({"pri": pri, "ll": lld, "N": rng.choice([51, 60]), "steps": 2, "seed": rng.randrange(2 ** 31)})
+    return cases
+
+
+def part_pool(ctx):
+    for c in gen_pool_cases(ctx):
+        o = run_real_pool_case(c)
+        ctx.count(("pool-run", c["seed"]), True, "pool-run")
+        for feat, text in oracle_run(c, o):
+            ctx.fail(dict(feat, pool="real"), {"part": "pool-run", **c}, "real process pool: " + text)
+        if o["res"][0] == "ok":
+            ctx.bump("pool-run-stages", len(o["res"][1]) - 1)
+
+
+# =====================================================================================
 def run(ctx: core.Check):
     ctx.rule = ("bisect: log-likelihood vectors of 9 shapes (normal, ties, few/many -inf, flat, one dominant, two-level, heavy tail) "
                 "x scale 1e-3..1e4 x shifts, N in 51..400, old beta in {0, dyadic, random, 1-1e-k}, previous ESS in {N, <N, 0.95*prev integer, "
                 "floor-50 active, non-integer, >N}; non-trivial unless flat/all -inf/old>=2. mh: 1-3 parameters, "
                 "quadratic / zero-likelihood-region / flat log-likelihoods, random SPD proposal covariances at 4 scales, 0-8 steps, "
                 "beta in {1, random, tiny, 0}, starts next to a finite bound of the support; 12 prior families incl. one-sided / untruncated TruncatedNormal and library lognormal/expon; non-trivial when at least one step. run: calibrations with N in {60,100,160,..}, 1-5 parameters, every stage tied and the (beta, ESS) chain re-derived. "
-                "distinctness on the canonical input description.")
+                "prior: every family (windows 5-12 sigma in either tail included) sampled as an initial population, pickle/deepcopy copies compared on a grid; pool-run: one calibration through a real 2-process multiprocessing.Pool. distinctness on the canonical input description.")
     ctx.assumptions = ["exp/log are not modelled: exp values and log-uniforms are computed by numpy and supplied to the model; "
                        "ESS(beta) is an oracle answered by the harness with the implementation's own three numpy lines",
                        "binary64 rounding is not modelled: dyadic old-beta streams must agree exactly, others within 4*depth ulp",
@@ -1285,6 +1510,8 @@ def run(ctx: core.Check):
     part_bisect(ctx)
     part_mh(ctx)
     part_run(ctx)
+    part_priors(ctx)
+    part_pool(ctx)
 
 
 def replay(obj):
@@ -1304,6 +1531,15 @@ def replay(obj):
         deltas, us, after_mvn = reproduce_stream(o["st0"], len(c["pri"]), o["Em"], c["n"])
         print("impl   :", _js_mh(o["res"]))
         for feat, text in oracle_mh(c, o, deltas, us, after_mvn):
+            print("oracle :", text)
+    elif part == "prior":
+        for feat, text in oracle_prior(c):
+            print("oracle :", text)
+    elif part == "pool-run":
+        cc = {k: c[k] for k in ("pri", "ll", "N", "steps", "seed")}
+        o = run_real_pool_case(cc)
+        print("result :", o["res"][0], o["res"][1:] if o["res"][0] == "err" else len(o["res"][1]))
+        for feat, text in oracle_run(cc, o):
             print("oracle :", text)
     elif part == "run":
         cc = {k: c[k] for k in ("pri", "ll", "N", "steps", "seed")}
